@@ -29,6 +29,9 @@ def _cases(tier):
             yield {"g": spec, "merge": merge, "fws": FWS if tier != "quick" else ["pydantic", "dataclasses", "attrs"]}
     for spec in A.sibling_graph_specs():
         yield {"g": spec, "merge": "default", "fws": ["pydantic", "dataclasses"]}
+    # a policy under which structurally identical small models stay separate (twins under one parent)
+    for spec in A.graph_specs(3, wrappers=("plain", "list")):
+        yield {"g": spec, "merge": "number_10", "fws": ["pydantic", "dataclasses", "attrs"]}
     for v in A.VALUE_NAMES:
         for v2 in A.VALUE_NAMES[:20] if tier == "quick" else A.VALUE_NAMES:
             yield {"h": [v, v2], "merge": "default", "fws": ["pydantic", "base"]}
